@@ -91,8 +91,14 @@ def classify(exc, tb, started):
     if isinstance(exc, ALLOWED_BASE):
         frames = traceback.extract_tb(tb)
         inner = frames[-1].filename if frames else ""
-        if "/pyimpspec/" in inner:
+        if "/pyimpspec/" in inner and (frames[-1].line or "").strip().startswith("raise"):
+            if started and isinstance(exc, TypeError):
+                # a TypeError of the library's own is argument validation; after progress has been reported it is not "up front" any more
+                return f"{name} raised by the library after the analysis had started (progress already reported), not by up-front validation: {str(exc)[:160]}"
             return None      # raised by the library's own code with its own message
+        if "/pyimpspec/" in inner:
+            # numpy/SciPy raised from C code at a line of the library that is not a `raise` statement: an unhandled shape/type error
+            return f"{name} raised by numpy/SciPy at {inner.split('/pyimpspec/')[-1]}:{frames[-1].lineno} `{(frames[-1].line or '').strip()[:80]}` (unhandled shape/type error): {str(exc)[:160]}"
         return f"{name} escaped from {inner.split('/site-packages/')[-1]} (unhandled shape/type error): {str(exc)[:200]}"
     return f"{name}: {str(exc)[:200]}"
 
@@ -199,6 +205,10 @@ def run(ctx):
         if t == "cnls" and not big and nev != 0:
             kw["num_F_ext_evaluations"] = 0
         call(ctx, "perform_kramers_kronig_test", lambda: perform_kramers_kronig_test(sizes[sz], **kw), {**{k: v for k, v in kw.items()}, "data": sz}, lines, expect)
+    # every (test, representation, fixed | automatic number of RC elements) at least once, the other options at their defaults
+    for (t, adm, nrc) in itertools.product(tests, [False, True, None], [0, 7]):
+        kw = dict(test=t, admittance=adm, num_RC=nrc, num_F_ext_evaluations=0, num_procs=1, max_nfev=30 if t == "cnls" else 0, timeout=0 if t != "cnls" else 60)
+        call(ctx, "perform_kramers_kronig_test", lambda: perform_kramers_kronig_test(sizes["small"], **kw), {**kw, "data": "small"}, lines, expect)
     for (t, adm, nev) in pick(rnd, itertools.product(["complex", "real-inv"], [False, True], [0, 12]), 4, big):
         kw = dict(test=t, admittance=adm, num_F_ext_evaluations=nev, num_procs=1)
         call(ctx, "evaluate_log_F_ext", lambda: evaluate_log_F_ext(sizes["small"], **kw), {**kw, "data": "small"}, lines, expect)
@@ -265,7 +275,12 @@ def run(ctx):
         elif cv != "gcv":
             continue
         drt.append(("tr-rbf", kw, sz))
-    for (m, kw, sz) in pick(rnd, drt, 16, big):
+    # the smallest values the validation accepts (always run, not sampled)
+    must = [("bht", dict(rbf_type="gaussian", derivative_order=1, num_samples=1, num_attempts=1, num_procs=1), "small"),
+            ("bht", dict(rbf_type="gaussian", derivative_order=2, num_samples=2, num_attempts=1, num_procs=1), "small"),
+            ("lm", dict(model_order=1, num_procs=1), "small"),
+            ("tr-nnls", dict(mode="real", lambda_value=1e-12), "small")]
+    for (m, kw, sz) in must + pick(rnd, drt, 16, big):
         desc = {k: (v if not hasattr(v, "to_string") else v.to_string()) for k, v in kw.items()}
         call(ctx, f"calculate_drt[{m}]", lambda: calculate_drt(sizes[sz], method=m, **kw), {**desc, "data": sz}, lines, expect)
 
